@@ -1,0 +1,15 @@
+//go:build verif
+
+package agent
+
+import "net/http"
+
+// VerifHTTPHandler returns the handler of the HTTP API server that
+// initComponents built from the configuration (nil when http.enabled is
+// false), so that the harness can drive it without a socket.
+func (a *Agent) VerifHTTPHandler() http.Handler {
+	if a.healthServer == nil {
+		return nil
+	}
+	return a.healthServer.Handler()
+}
